@@ -129,6 +129,10 @@ def replay(ch, scns, outs, prop_hooks, fam):
         if res.get("panic"):
             ch.violation(dict(desc, kind="panic"), {"step": step, "panic": res["panic"], "scenario": scn})
             continue
+        if res.get("runaway"):
+            ch.violation(dict(desc, kind="runaway"), {"step": step, "scenario": scn, "step_index": ti,
+                         "what": "the command kept transmitting without bound (cut off after %d datagrams)" % len(res["sent"])})
+            continue
         m = conn.check_cmd_step(ch, fam, step, res, ml, desc)
         ctx = {"scn": scn, "out": out, "step": step, "res": res, "model": m, "keys": keys, "seq0": seq0,
                "accepts": acc_by.get((si, ti), []), "desc": desc, "si": si, "ti": ti}
